@@ -1,20 +1,20 @@
 #!/bin/bash
-# tools/confirmseed.sh <Cxx> <pkgdir> : confirm a seeded change in its scratch worktree /tmp/wt/<Cxx>:
+# tools/confirmseed.sh <Cxx> <pkgdir> [<test name regex>] : confirm a seeded change in its scratch worktree /tmp/wt/<Cxx>:
 #  (1) demo FAILS with the change, (2) demo PASSES without, (3) the pinned suite passes with the change
 #  (demo moved away).  Leaves the worktree with the change applied.  Never touches /repo or the demo copy.
 export GOFLAGS=-mod=mod GOPROXY=off GOSUMDB=off GOTOOLCHAIN=local
-id=$1; pkg=$2; wt=/tmp/wt/$id
+id=$1; pkg=$2; wt=/tmp/wt/$id; RUN=""; [ -n "$3" ] && RUN="-run $3"
 cd $wt || exit 2
 git diff > /tmp/wt/$id.confirm.diff
 cmp -s /tmp/wt/$id.confirm.diff /tmp/wt/$id.patch.diff || echo "NOTE: worktree diff differs from patch.diff"
 demos=$(git ls-files --others --exclude-standard)
 echo "demo files: $demos"
 echo "--- (1) with change: demo must FAIL"
-timeout 120 go test -vet=off -count=1 ./$pkg/ 2>&1 | tail -3
-git stash -q
+timeout 120 go test -vet=off -count=1 $RUN ./$pkg/ 2>&1 | tail -3
+git apply -R /tmp/wt/$id.confirm.diff     # (git stash is shared between worktrees: never use it here)
 echo "--- (2) without change: demo must PASS"
-timeout 120 go test -vet=off -count=1 ./$pkg/ 2>&1 | tail -3
-git stash pop -q
+timeout 120 go test -vet=off -count=1 $RUN ./$pkg/ 2>&1 | tail -3
+git apply /tmp/wt/$id.confirm.diff
 echo "--- (3) suite with change, demo moved away"
 mkdir -p /tmp/wt/$id.hold; for f in $demos; do mv $f /tmp/wt/$id.hold/$(echo $f | tr / _); done
 timeout 1500 go test -vet=off -count=1 ./... 2>&1 | grep -v "no test files" | tail -20
